@@ -275,7 +275,7 @@ inductive Op
   | append (recs : List (Bool × Nat × Nat))   -- live replica: the master wrote records (isEv, id, ln); they reach the reader
   | hold (b : Bool)
   | close
-  | crash (d : Nat)
+  | crash (d : Nat) (torn : Bool)   -- torn: the last binlog file ends with a proper prefix of one more record
   | ready
 deriving DecidableEq, Repr
 
@@ -299,8 +299,24 @@ def step (s : St) : Op → St × String
   | .append l => if busy s || !l.all (fun x => decide (0 < x.2.2)) then (s, "bad-op") else (appendStep s l, "ok")
   | .hold b => ({ s with hold := b }, "ok")
   | .close => closeStep s
-  | .crash d => if crashOK s d then (crashStep s d, s!"image={fmtDB s.com} start={s.com.off}") else (s, "bad-op")
+  -- a torn tail (kill inside write(2)) is cut off by the binlog writer when it reopens the file (after the fix
+  -- fixes/C17-binlog-torn-tail.diff), so it makes no difference; `stepOld` below is the behaviour before the fix
+  | .crash d _ => if crashOK s d then (crashStep s d, s!"image={fmtDB s.com} start={s.com.off}") else (s, "bad-op")
   | .ready => (readyStep s, "ok")
+
+/-- Before the fix: fsbinlog's writer.initChunk refused a last file that is longer than the position the reader reached
+    ("current position in file is not equal file size"), binlog.Run failed and OpenEngine returned an error: a master
+    engine stayed down after a kill that tore the last write. -/
+def stepOld (s : St) : Op → St × String
+  | .crash d true =>
+    if !crashOK s d then (s, "bad-op")
+    else if s.repl then (crashStep s d, s!"image={fmtDB s.com} start={s.com.off}")
+    else ({ crashStep s d with closed := true }, "open-error")
+  | op => step s op
+
+def runOld (s : St) : List Op → St
+  | [] => s
+  | op :: ops => runOld (stepOld s op).1 ops
 
 def run (s : St) : List Op → St
   | [] => s
